@@ -35,6 +35,7 @@ type mutexSt struct {
 type rwSt struct {
 	writer  bool
 	readers int
+	pending map[int]bool // threads blocked in Lock: Go's RWMutex holds new readers back behind a waiting writer
 	vcW     vclock // released by writers
 	vcR     vclock // released by readers
 }
